@@ -71,8 +71,9 @@ def c15b(ctx):
             (const_value(at.left, 1) is None or const_value(at.right, 1) is None)
     for n, d in dones:
         if g.guarded(n, sentinel, True):
-            st = enclosing(d, ast.If)
-            nxt = [s for s in st.body if isinstance(s, ast.Break)] if st is not None else []
+            # after the sentinel was marked done no further task is taken: no path back to task_queue.get()
+            gets = g.find(lambda x: is_call(x, 'self.task_queue.get'))
+            nxt = bool(gets) and not any(g.reaches_avoiding(n, gn) for gn, _ in gets)
             ctx.check(bool(nxt), 'ThreadWorker.run:sentinel-done-then-break', 'the shutdown sentinel is marked done and the worker leaves the loop', fn, d)
         else:
             ok = any(g.dominates(p, n) and p != n for p, _ in puts)
@@ -233,8 +234,16 @@ def c15e(ctx):
     for qn, sink in USERS:
         fn = ctx.fn(qn)
         loops = [s for s in fn.walk() if isinstance(s, ast.For) and is_call(s.iter, 'imap')]
+        comps = [c for c in fn.walk() if isinstance(c, ast.ListComp) and len(c.generators) == 1 and is_call(c.generators[0].iter, 'imap')]
         ok = len(loops) == 1
-        if ok:
+        if not loops and len(comps) == 1 and sink.endswith('.append'):
+            # the accumulator loop in its comprehension form: `layers = [layer for layer in imap(..) if ..]` keeps the order
+            c = comps[0]
+            asg = enclosing(c, ast.Assign)
+            ok = asg is not None and unparse(asg.targets[0]) == sink.rsplit('.', 1)[0] and \
+                not contains(c.generators[0].iter, lambda x: is_call(x, 'sorted', 'set', 'reversed')) and \
+                not any(is_call(x, 'sort', 'sorted', 'reverse', 'reversed') and x.lineno > c.lineno for x in fn.walk())
+        elif ok:
             lp = loops[0]
             adds = [x for x in ast.walk(lp) if is_call(x, sink)]
             ok = bool(adds) and not contains(lp.iter, lambda x: is_call(x, 'sorted', 'set', 'reversed'))
